@@ -187,3 +187,91 @@ func sameAff(a, b *aff) bool {
 	d := a.add(*b, -1)
 	return d.isConst() && d.k == 0
 }
+
+// bufWriteFacts: write side. For a bytes.Buffer that is a local variable of
+// the function (zero value) and is only ever used as the receiver of Write,
+// WriteByte, WriteString, Bytes, Len and String, nothing removes bytes, so at
+// a Bytes()/Len() call the content is at least as long as the sum of the
+// arguments of the Write calls that dominate it:
+//
+//	len(b.Bytes()) − Σ len(argᵢ) ≥ 0
+func (bf *boundsFn) bufWriteFacts() {
+	for _, blk := range bf.fn.Blocks {
+		for _, ins := range blk.Instrs {
+			al, ok := ins.(*ssa.Alloc)
+			if !ok || !strings.HasSuffix(al.Type().String(), "*bytes.Buffer") || al.Referrers() == nil {
+				continue
+			}
+			type use struct {
+				call *ssa.Call
+				m    string
+			}
+			var uses []use
+			clean := true
+			for _, r := range *al.Referrers() {
+				call, isCall := r.(*ssa.Call)
+				if !isCall {
+					if _, dbg := r.(*ssa.DebugRef); dbg {
+						continue
+					}
+					clean = false
+					break
+				}
+				recv, m, isBuf := bufRecv(call)
+				if !isBuf || recv != sx(al) || len(call.Call.Args) == 0 || call.Call.Args[0] != ssa.Value(al) {
+					clean = false
+					break
+				}
+				for _, a := range call.Call.Args[1:] {
+					if a == ssa.Value(al) {
+						clean = false
+					}
+				}
+				switch m {
+				case "Write", "WriteByte", "WriteString", "Bytes", "Len", "String":
+					uses = append(uses, use{call, m})
+				default:
+					clean = false
+				}
+			}
+			if !clean {
+				continue
+			}
+			for _, rd := range uses {
+				if rd.m != "Bytes" && rd.m != "Len" {
+					continue
+				}
+				sum := aff{}
+				for _, w := range uses {
+					var n aff
+					switch w.m {
+					case "Write", "WriteString":
+						n = bf.lenAff(w.call.Call.Args[1])
+					case "WriteByte":
+						n = affConst(1)
+					default:
+						continue
+					}
+					dom := w.call.Block() != rd.call.Block() && w.call.Block().Dominates(rd.call.Block())
+					if w.call.Block() == rd.call.Block() && instrBefore(w.call, rd.call) {
+						dom = true
+					}
+					if !dom || bf.rangeOfAff(n).lo < 0 {
+						continue
+					}
+					sum = sum.add(n, 1)
+				}
+				if len(sum.t) == 0 && sum.k == 0 {
+					continue
+				}
+				var have aff
+				if rd.m == "Bytes" {
+					have = bf.lenAff(rd.call)
+				} else {
+					have = bf.affOf(rd.call)
+				}
+				bf.global = append(bf.global, have.add(sum, -1))
+			}
+		}
+	}
+}
